@@ -19,7 +19,14 @@
        attribute-value exception, the numeric replacement table).
    N7  in the script data double escape start/end states the standard appends the LOWER-CASED character to the
        temporary buffer and compares the buffer with "script"; here the character is appended as is and the
-       lower-cased buffer is compared. *)
+       lower-cased buffer is compared.
+   N9  after the PUBLIC / SYSTEM keyword anything but whitespace and EOF is reconsumed in the "before DOCTYPE
+       public / system identifier" state, which treats a quote (identifier := "", quoted state), ">" (force-quirks,
+       emit) and anything else (force-quirks, bogus DOCTYPE) exactly as the standard does directly (it only reports
+       a different parse error).
+   N8  "<![CDATA[" where CDATA sections are not allowed: the standard creates a comment whose data is "[CDATA["
+       and consumes those seven characters; here the comment starts empty and nothing is consumed -- the bogus
+       comment state then appends the same seven characters (none of them is ">"). *)
 From Coq Require Import NArith List Bool Arith.
 From Verif Require Import Sx Str.
 From Verif.Gen Require Import Entities.
@@ -432,7 +439,7 @@ Definition sp_step (k0 : tk) : tk * bool :=
           | None =>
               match next_are false w_CDATA (inp k0) with
               | Some r => if cdata_ok k0 then go cdataSectionState (set_inp r k0)
-                          else go bogusCommentState (set_cur (CComment w_CDATA) (set_inp r k0))
+                          else go bogusCommentState (set_cur (CComment []) k0)       (* N8 *)
               | None => go bogusCommentState (set_cur (CComment []) k0)
               end
           end
@@ -512,14 +519,11 @@ Definition sp_step (k0 : tk) : tk * bool :=
           if x =? 62 then go dataState (emit_cur k) else
            if is_space x then (k, true) else match next_are true w_PUBLIC (inp k0) with | Some r => go afterDoctypePublicKeywordState (set_inp r k0) | None => match next_are true w_SYSTEM (inp k0) with | Some r => go afterDoctypeSystemKeywordState (set_inp r k0) | None => go bogusDoctypeState (fq k0) end end
       end
-  | afterDoctypePublicKeywordState =>
+  | afterDoctypePublicKeywordState =>                       (* N9 *)
       match c with
       | None => go dataState (emit_cur (fq k0))
-      | Some x =>
-          if x =? 34 then go doctypePublicIdentifierDoubleQuotedState (pub_set [] k) else
-          if x =? 39 then go doctypePublicIdentifierSingleQuotedState (pub_set [] k) else
-          if x =? 62 then go dataState (emit_cur (fq k)) else
-          if is_space x then go beforeDoctypePublicIdentifierState k else go bogusDoctypeState (fq k0)
+      | Some x => if is_space x then go beforeDoctypePublicIdentifierState k
+                  else go beforeDoctypePublicIdentifierState k0
       end
   | beforeDoctypePublicIdentifierState =>
       match c with
@@ -564,14 +568,11 @@ Definition sp_step (k0 : tk) : tk * bool :=
           if x =? 39 then go doctypeSystemIdentifierSingleQuotedState (sys_set [] k) else
           if is_space x then (k, true) else go bogusDoctypeState (fq k0)
       end
-  | afterDoctypeSystemKeywordState =>
+  | afterDoctypeSystemKeywordState =>                       (* N9 *)
       match c with
       | None => go dataState (emit_cur (fq k0))
-      | Some x =>
-          if x =? 34 then go doctypeSystemIdentifierDoubleQuotedState (sys_set [] k) else
-          if x =? 39 then go doctypeSystemIdentifierSingleQuotedState (sys_set [] k) else
-          if x =? 62 then go dataState (emit_cur (fq k)) else
-          if is_space x then go beforeDoctypeSystemIdentifierState k else go bogusDoctypeState (fq k0)
+      | Some x => if is_space x then go beforeDoctypeSystemIdentifierState k
+                  else go beforeDoctypeSystemIdentifierState k0
       end
   | beforeDoctypeSystemIdentifierState =>
       match c with
